@@ -100,7 +100,11 @@ func c17ResetSpecs() []resetSpec {
 		if t == "geospatialBBoxAccumulator" {
 			name = "reset"
 		}
-		specs = append(specs, resetSpec{Type: t, Reset: []string{"(*" + t + ")." + name}})
+		sp := resetSpec{Type: t, Reset: []string{"(*" + t + ")." + name}}
+		if strings.HasSuffix(t, "Dictionary") {
+			sp.Exempt = map[string]string{t + ".table": "hash table of the dictionary: Reset clears its content through table.Reset; capacity, load limits and seed are retained on purpose and only decide probe order, dictionary indexes are assigned in insertion order"}
+		}
+		specs = append(specs, sp)
 	}
 	return specs
 }
